@@ -58,3 +58,11 @@ CASES = {
     "s_index": [("",), ("aq",)],
     "conc_bytes": [()],
 }
+
+
+def in_range(b):
+    x = b[0]
+    return [x in range(0, 100), x not in range(3, 50, 7), x in range(10, 0, -3), x in range(5, 5)]
+
+
+CASES["in_range"] = [(bytes([v]),) for v in (0, 1, 3, 10, 45, 49, 99, 100, 255)]
